@@ -334,12 +334,20 @@ def run_integral(case, res):
     def point_eval(P):
         return np.array([np.atleast_1d(np.asarray(f.eval(tuple(p)), dtype=float)) for p in P])
     ref = np.zeros(ol)
+    ref2 = np.zeros(ol)
     absref = np.zeros(ol)
     for cell in itertools.product(*[list(zip(c[:-1], c[1:])) for c in cuts]):
         cs = [c[0] for c in cell]
         ce = [c[1] for c in cell]
         ref = ref + rm.gauss_legendre_box(point_eval, cs, ce, npts)
+        ref2 = ref2 + rm.gauss_legendre_box(point_eval, cs, ce, npts - 10)
         absref = absref + rm.gauss_legendre_box(lambda P: np.abs(point_eval(P)), cs, ce, npts)
+    if not np.all(np.abs(ref - ref2) <= 1e-11 * np.maximum(absref, 1e-300)):
+        # the reference quadrature itself has not converged on this box (sharp peak): no verdict for this case
+        res.note("reference_quadrature_not_converged:" + name)
+        res.hash = digest([name, d, s, e, "unconverged"])
+        res.sample = ctx
+        return
     if ana is None:
         res.check("analytic_integral", False, "C12_integral_returns_none:" + name,
                   "%s.getAnalyticSolutionIntegral returns None (reference %s)" % (name, ref), ctx)
